@@ -173,6 +173,23 @@ asn1constraint_resolve(arg_t *arg, asn1p_constraint_t *ct, asn1p_expr_type_e ety
 
 		ret = asn1constraint_compatible(etype, real_constraint_type,
 				arg->flags & A1F_EXTENDED_SizeConstraint);
+		if(ret == 1 && (etype & ASN_STRING_MASK) && !effective_type) {
+			/*
+			 * X.680-0207, Table 9: a ValueRange applies to
+			 * the restricted character string types only
+			 * within a permitted alphabet, FROM(...).
+			 */
+			switch(ct->type) {
+			case ACT_EL_RANGE:
+			case ACT_EL_LLRANGE:
+			case ACT_EL_RLRANGE:
+			case ACT_EL_ULRANGE:
+				ret = 0;
+				break;
+			default:
+				break;
+			}
+		}
 		switch(ret) {
 		case -1:	/* If unknown, assume OK. */
 		case  1:
